@@ -383,27 +383,8 @@ func checkFileHeader(c *fw.Ctx, ast *ref.Schema, doc string, variant string) {
 	c.Eval(1)
 	kind := astKind(ast)
 	det := map[string]interface{}{"doc": clipS(doc, 600), "variant": variant, "path": "FileSchema"}
-	if hdrFile == "" {
-		dir := os.Getenv("VERIF_WORK")
-		if dir == "" {
-			dir = os.TempDir()
-		}
-		f, err := os.CreateTemp(dir, "c14hdr-*.avro")
-		if err != nil {
-			c.HarnessError("cannot create a scratch file: " + err.Error())
-			return
-		}
-		hdrFile = f.Name()
-		f.Close()
-	}
-	data, _ := ref.WriteFile(ref.StdMeta(doc, "null", true), "null", [16]byte{1, 2, 3, 4}, nil)
-	if err := os.WriteFile(hdrFile, data, 0o644); err != nil {
-		c.HarnessError("cannot write the scratch file: " + err.Error())
-		return
-	}
-	var got avro.Schema
-	var err error
-	if c.Guard("filesschema|"+kind, "FileSchema on a header holding "+clipS(doc, 200), det, func() { got, err = avro.FileSchema(hdrFile) }) {
+	got, err, ok := fileSchemaOf(c, doc)
+	if !ok {
 		return
 	}
 	if err != nil {
@@ -414,6 +395,33 @@ func checkFileHeader(c *fw.Ctx, ast *ref.Schema, doc string, variant string) {
 		c.Violation("parse-mismatch|"+kind+"|"+variant+"|file-header", fmt.Sprintf("schema read from a file header differs from the document at %s — %s", d, clipS(doc, 200)), det)
 	}
 	c.Nontrivial("hdr:" + doc)
+}
+
+// fileSchemaOf stores doc as the avro.schema entry of an (otherwise empty) container file and reads it back
+// with FileSchema; ok is false when the call panicked or the scratch file could not be written.
+func fileSchemaOf(c *fw.Ctx, doc string) (got avro.Schema, err error, ok bool) {
+	if hdrFile == "" {
+		dir := os.Getenv("VERIF_WORK")
+		if dir == "" {
+			dir = os.TempDir()
+		}
+		f, cerr := os.CreateTemp(dir, "c14hdr-*.avro")
+		if cerr != nil {
+			c.HarnessError("cannot create a scratch file: " + cerr.Error())
+			return
+		}
+		hdrFile = f.Name()
+		f.Close()
+	}
+	data, _ := ref.WriteFile(ref.StdMeta(doc, "null", true), "null", [16]byte{1, 2, 3, 4}, nil)
+	if werr := os.WriteFile(hdrFile, data, 0o644); werr != nil {
+		c.HarnessError("cannot write the scratch file: " + werr.Error())
+		return
+	}
+	if c.Guard("fileschema", "FileSchema on a header holding "+clipS(doc, 200), clipS(doc, 600), func() { got, err = avro.FileSchema(hdrFile) }) {
+		return
+	}
+	return got, err, true
 }
 
 // CleanupC14 removes the worker's scratch file.
@@ -447,6 +455,10 @@ func checkMalformed(c *fw.Ctx, doc string) {
 		if err == nil {
 			c.Violation("malformed-accepted|"+how, fmt.Sprintf("malformed JSON %q accepted as schema %+v", clipS(m, 200), s), m)
 		}
+		// the other entry point: the same bytes as the avro.schema entry of a container-file header
+		if hs, herr, ok := fileSchemaOf(c, m); ok && herr == nil {
+			c.Violation("malformed-accepted|"+how+"|file-header", fmt.Sprintf("malformed JSON %q in a file header accepted by FileSchema as schema %+v", clipS(m, 200), hs), m)
+		}
 	}
 	for i := 0; i < len(doc); i++ {
 		try(doc[:i], "truncation")
@@ -479,6 +491,15 @@ func runCase(c *fw.Ctx, idx int) {
 				checkDoc(c, ast, doc, "plain")
 			}
 		}
+		// the same documents as an ASCII-only / escaping JSON writer would render them: one character of every
+		// string (type names, names, keys) as a \uXXXX escape, optionally '/' as \/
+		for esc := 1; esc <= 2; esc++ {
+			for layout := 0; layout < 3; layout++ {
+				doc := ast.Print(&ref.PrintOpts{KeyOrder: keyOrder((k + layout + esc) % 24), Layout: layout, Escape: esc})
+				checkDoc(c, ast, doc, "escaped")
+			}
+		}
+		checkFileHeader(c, ast, ast.Print(&ref.PrintOpts{KeyOrder: keyOrder((k + 5) % 24), Layout: 1, Escape: 1}), "escaped")
 		for ei, e := range extras {
 			for vi, v := range withExtra(ast, e) {
 				p := (ei*7 + vi) % 24
@@ -513,7 +534,7 @@ func init() {
 			if tier == "thorough" {
 				d += " plus depth 3 over a 6-leaf alphabet"
 			}
-			return "every reference schema AST of " + d + " under constructors {array, map, record(1 field), record(2 fields, namespace), record(3 fields), union [X], [null,X], [X,null], [null,X,boolean,double]}; each rendered under 24 key orderings (every permutation for objects with <=4 keys, rotations/reversals beyond) × 3 whitespace layouts, and with each of 18 extra attributes (doc, default null/object, aliases, order, precision, scale, unknown object, unknown array, and 9 look-alikes of supported attributes that differ only in case or punctuation: Size, Name, NAMESPACE, Items, Values, logical_type, logical-type, Symbols, Type) inserted at each schema object and each field object; SchemaFromString result compared structurally with the expected avro.Schema; Marshal output checked with encoding/json, re-parsed by the reference parser and by the library; after every document the caller-visible result is overwritten in place (every reachable string, slice element and size) and the same document parsed again, which must again equal the document; one rendering per AST and every look-alike-attribute document (plus one slot of every other extra) is also stored as avro.schema of a container-file header and read back with FileSchema, same oracle; malformed documents = every truncation and every structural-token deletion/duplication of the small documents, oracle json.Valid; non-trivial = a distinct document that reached the comparison"
+			return "every reference schema AST of " + d + " under constructors {array, map, record(1 field), record(2 fields, namespace), record(3 fields), union [X], [null,X], [X,null], [null,X,boolean,double]}; each rendered under 24 key orderings (every permutation for objects with <=4 keys, rotations/reversals beyond) × 3 whitespace layouts, and in 6 renderings with JSON string escapes (one character of every string, keys included, as \\uXXXX; optionally '/' as \\/), and with each of 18 extra attributes (doc, default null/object, aliases, order, precision, scale, unknown object, unknown array, and 9 look-alikes of supported attributes that differ only in case or punctuation: Size, Name, NAMESPACE, Items, Values, logical_type, logical-type, Symbols, Type) inserted at each schema object and each field object; SchemaFromString result compared structurally with the expected avro.Schema; Marshal output checked with encoding/json, re-parsed by the reference parser and by the library; after every document the caller-visible result is overwritten in place (every reachable string, slice element and size) and the same document parsed again, which must again equal the document; one rendering per AST and every look-alike-attribute document (plus one slot of every other extra) is also stored as avro.schema of a container-file header and read back with FileSchema, same oracle; malformed documents = every truncation and every structural-token deletion/duplication of the small documents, oracle json.Valid, through SchemaFromString and through a file header read with FileSchema; non-trivial = a distinct document that reached the comparison"
 		},
 		Assumptions: []string{
 			"a nil Object and an all-zero Object, nil and empty slices are identified (rendering details, not structure)",
